@@ -332,6 +332,16 @@ Example C13_example_offset :
   fw_codes w2 = [c150; code "226"] /\ List.concat (rev (fw_sent w2)) = [48; 49; 50; 51; 52; 53; 54; 55; 56; 57]%Z.
 Proof. vm_compute. repeat split. Qed.
 
+(* after a failed transfer the passive listener is still the session's: a NEW connection to the SAME listener (no
+   new PASV) carries the next transfer, complete *)
+Example C13_example_same_listener :
+  let w1 := gstep x_users 4 (x_world [false; false; false; true]) (ev "retr" "g") in
+  let w2 := fst (grun x_users 4 w1 [dataconn; ev "retr" "g"]) in
+  fw_codes w1 = [c150; c451] /\ s_passive (fw_s w1) = true /\ s_data (fw_s w1) = false /\
+  fw_codes w2 = [c150; code "226"] /\ fw_dst w2 = StClosed /\
+  List.concat (rev (fw_sent w2)) = [48; 49; 50; 51; 52; 53; 54; 55; 56; 57]%Z.
+Proof. vm_compute. repeat split. Qed.
+
 (* the generic stream-first theorem is not vacuous either *)
 Example C13_example_stream_first :
   let w' := fstep x_users gen_table pathcond_defs gen_react gen_wrapped (ctx_stream_first "file")
